@@ -75,13 +75,26 @@ Fixpoint gen_chunks (off : nat) (l : list (N * N)) : journal :=
   | (id, n) :: tl => mkCh id (map gen_ev (seq off (N.to_nat n))) :: gen_chunks (off + N.to_nat n) tl
   end.
 
+(* one flush placed in the window between a chunk iterator's io.EOF and the selector's look at the chunks (RANGE walks):
+   the chunk layout (id, records) of the partition before and after the flush, and the position the page returned for it.
+   The model's eof_step, started at the end of the last chunk of `before`, answers with that position *)
+Definition eofwin := (list (N * N) * list (N * N) * (N * N))%type.
+Definition eof_ok (w : eofwin) : bool :=
+  let '(before, after, pos) := w in
+  match last (map Some before) None with
+  | Some (cid, n) => pos_eqb (jit_pos (fst (eof_step repo_restores_eof (gen_chunks 0 after) (mkJit cid n (Some n) false)))) pos
+  | None => false
+  end.
+
 Inductive case :=
 | KRun (st0 : store) (q : qfilter) (start : pos_t) (steps : list pstep) (observed : list opage)
+| KRunW (st0 : store) (q : qfilter) (start : pos_t) (steps : list pstep) (observed : list opage) (wins : list eofwin)
 | KBulk (src tags : bytes) (chunks : list (N * N)) (steps : list pstep) (observed : list (N * N * posl * bool)).
 
 Definition check (c : case) : bool :=
   match c with
   | KRun st0 q start steps observed => check_run st0 q start steps observed
+  | KRunW st0 q start steps observed wins => check_run st0 q start steps observed && forallb eof_ok wins
   | KBulk src tags chunks steps observed =>
       let st0 := [mkPart src tags (gen_chunks 0 chunks)] in
       let obs := map (fun o : N * N * posl * bool =>
